@@ -48,22 +48,22 @@ structure Header where
 
 /-- one round of `strings_parser`: `base_offset + *offset as u64` (u64 arithmetic, checked in a debug
 build), `seek(Start(..))`, then the byte loop (repaired: `read_le::<u8>()?`) -/
-def nameAt (base off : Nat) : P Unit := do
-  let so ← P.lift (addC U64MAX base off)
+def nameAt (base : Nat) (off : UInt16) : P Unit := do
+  let so ← P.lift (addC U64MAX base off.toNat)
   P.seekStart so
   P.cstr
 
 /-- the byte loop at the pinned commit: `read_le::<u8>().unwrap()` -/
-def nameAtUnfixed (base off : Nat) : P Unit := do
-  let so ← P.lift (addC U64MAX base off)
+def nameAtUnfixed (base : Nat) (off : UInt16) : P Unit := do
+  let so ← P.lift (addC U64MAX base off.toNat)
   P.seekStart so
   fun w s => match P.cstr w s with
     | ⟨.fail _, k⟩ => ⟨.fault .unwrap, k⟩
     | r => r
 
 /-- `strings_parser(base_offset, &offsets)`: one `String` per offset -/
-def stringsParser (base : Nat) (offs : List Nat) : P Nat := P.forEach offs (nameAt base)
-def stringsParserUnfixed (base : Nat) (offs : List Nat) : P Nat := P.forEach offs (nameAtUnfixed base)
+def stringsParser (base : Nat) (offs : List UInt16) : P Nat := P.forEach offs (nameAt base)
+def stringsParserUnfixed (base : Nat) (offs : List UInt16) : P Nat := P.forEach offs (nameAtUnfixed base)
 
 /-- `count = n` where `n: i32`: `usize::try_from(n)` fails for a negative value (`AssertFail`, an
 ordinary non-EOF error) -/
@@ -72,17 +72,17 @@ def i32Count (v : UInt32) : P Nat := if v.toNat < 2147483648 then pure v.toNat e
 /-- `RacialDeformer` read at `data_offset = base` (`0 ≤ base < 2^31`).
 `Vec<u16>` is binrw's chunked integer read and `[f32; 12]` twelve float reads: both are
 all-or-end-of-input without an up-front reservation, i.e. `count` of fixed-width reads. -/
-def deformerWith (strings : Nat → List Nat → P Nat) (base : Nat) : P Deformer := do
+def deformerWith (strings : Nat → List UInt16 → P Nat) (base : Nat) : P Deformer := do
   let bc ← P.u32le
   let n ← i32Count bc
-  let offs ← P.count n u16leNat
+  let offs ← P.count n P.u16le
   let names ← P.restorePosition (strings base offs)
   let _ ← P.ifCond (n % 2 != 0) P.u16le 0          -- `if((bone_count & 1) != 0)` padding
   let tr ← P.count n (P.bytes 48)
   pure ⟨n, names, tr.length⟩
 
 /-- `seek_before = SeekFrom::Start(data_offset as u64)` with `data_offset: i32`, then the deformer -/
-def deformerAtWith (strings : Nat → List Nat → P Nat) (dataOffset : UInt32) : P Deformer :=
+def deformerAtWith (strings : Nat → List UInt16 → P Nat) (dataOffset : UInt32) : P Deformer :=
   if dataOffset.toNat < 2147483648 then do
     P.seekStart dataOffset.toNat
     deformerWith strings dataOffset.toNat
@@ -90,7 +90,7 @@ def deformerAtWith (strings : Nat → List Nat → P Nat) (dataOffset : UInt32) 
     -- position ≥ 2^63: beyond the end of every slice; reading `bone_count` reports end-of-input
     P.eofP
 
-def itemWith (strings : Nat → List Nat → P Nat) : P Item := do
+def itemWith (strings : Nat → List UInt16 → P Nat) : P Item := do
   let body ← u16leNat
   let link ← P.u16le
   let dataOffset ← P.u32le
@@ -105,7 +105,7 @@ def link : P Link := do
   let di ← u16leNat
   pure ⟨parent, sibling, di⟩
 
-def headerWith (strings : Nat → List Nat → P Nat) : P Header := do
+def headerWith (strings : Nat → List UInt16 → P Nat) : P Header := do
   let c ← P.u32le
   let n ← i32Count c
   let items ← P.count n (itemWith strings)
